@@ -385,7 +385,6 @@ func (n NaturalLanguageValues) MarshalJSON() ([]byte, error) {
 	if l == 1 {
 		v := n[0]
 		if len(v.Value) > 0 {
-			v.Value = unescape(v.Value)
 			stringBytes(&b, v.Value, false)
 			return b.Bytes(), nil
 		}
